@@ -1,6 +1,6 @@
 From Coq Require Import ZArith List String Bool.
 Import ListNotations.
-From TD Require Import Lib.Sexp Model.C15_TCWrap Gen.C15_tables.
+From TD Require Import Lib.Sexp Model.C15_TCWrap Model.C15_Pieces Gen.C15_tables.
 Open Scope string_scope.
 Open Scope list_scope.
 
@@ -97,8 +97,72 @@ Definition dec_itemvalue (s : sexp) : option itemvalue :=
   | _ => None
   end.
 
+(* ---- Model/C15_Pieces.v *)
+Definition dec_pyobj (s : sexp) : option pyobj :=
+  match s with
+  | SL [SZ i; SZ c; r] => match dec_bool r with Some r => Some {| oid := Z.to_nat i; ocls := Z.to_nat c; oraises := r |} | None => None end
+  | _ => None
+  end.
+Definition dec_ntitem (s : sexp) : option ntitem :=
+  match s with
+  | SL [SA "ntd"; SZ n; v] => option_map (INtd (Z.to_nat n)) (dec_pyobj v)
+  | SL [SA "nts"; vs] => option_map INts (dec_list dec_pyobj vs)
+  | SL [SA "tensor"; SZ n] => Some (ITensor (Z.to_nat n))
+  | _ => None
+  end.
+Definition enc_ntres (r : ntres) : sexp :=
+  match r with
+  | NStack rows => SL [SA "stack"; enc_list (fun o => enc_nat (ocls o)) rows]
+  | NData n v => SL [SA "data"; enc_list (fun o => enc_nat (ocls o)) (repeat v n)]
+  | NTensors => SA "tensors"
+  end.
+Definition enc_ogot (g : option got) : sexp := match g with Some g => enc_got g | None => SA "dangling" end.
+Inductive pmut := PMNone | PMSet (target : nat) (k : string) (v : vkind) (hn : hint) (o : opts) | PMDel (target : nat) (k : string).
+Definition dec_pmut (s : sexp) : option pmut :=
+  match s with
+  | SA "none" => Some PMNone
+  | SL [SA "set"; SZ t; SA k; v; hn; ac; nc] =>
+      match dec_vkind v, dec_hint hn, dec_bool ac, dec_bool nc with
+      | Some v, Some hn, Some ac, Some nc => Some (PMSet (Z.to_nat t) k v hn {| o_autocast := ac; o_nocast := nc |})
+      | _, _, _, _ => None
+      end
+  | SL [SA "del"; SZ t; SA k] => Some (PMDel (Z.to_nat t) k)
+  | _ => None
+  end.
+Definition pieces_cmd (fields : list string) (tdh : list (list (string * tval))) (nt : ntdict) (tds : list nat) (m : pmut) : sexp :=
+  let h := {| h_td := tdh; h_nt := [nt] |} in
+  let src := {| i_td := 0; i_nt := 0 |} in
+  match rewrap_all fields h src tds with
+  | RErr e => SL [SA "raise"; enc_err e]
+  | RDangling => SA "dangling"
+  | ROk h1 ps =>
+      let all := src :: ps in
+      let after :=
+        match m with
+        | PMNone => HOk h1
+        | PMSet t k v hn o => match nth_error all t with Some p => set_field_h fields false o hn h1 p k v 999 | None => HDangling end
+        | PMDel t k => match nth_error all t with Some p => del_field_h h1 p k | None => HDangling end
+        end in
+      match after with
+      | HErr e => SL [SA "mutation-raises"; enc_err e]
+      | HDangling => SA "dangling"
+      | HOk h2 =>
+          SL [SA "ok";
+              enc_list (fun p => SL [enc_bool (wf_h fields h1 p); enc_list (fun f => enc_ogot (get_field_h fields h1 p f)) fields]) all;
+              enc_list (fun p => SL [enc_bool (wf_h fields h2 p); enc_list (fun f => enc_ogot (get_field_h fields h2 p f)) fields]) all]
+      end
+  end.
+
 Definition dispatch (cmd : string) (args : list sexp) : option sexp :=
   match cmd, args with
+  | "same-nt", [items] => option_map (fun l => enc_bool (same_non_tensor l)) (dec_list dec_ntitem items)
+  | "cat-nt", [items] => option_map (fun l => enc_ntres (cat_nt l)) (dec_list dec_ntitem items)
+  | "stack-nt", [items] => option_map (fun l => enc_ntres (stack_nt l)) (dec_list dec_ntitem items)
+  | "pieces", [f; tdh; nt; tds; m] =>
+      match dec_list dec_str f, dec_list (dec_list (dec_pair dec_str dec_tval)) tdh, dec_nt nt, dec_list dec_nat tds, dec_pmut m with
+      | Some f, Some tdh, Some nt, Some tds, Some m => Some (pieces_cmd f tdh nt tds m)
+      | _, _, _, _, _ => None
+      end
   | "dispatch", [e; SA n] => option_map (fun e => enc_disp (C15_TCWrap.dispatch e install_steps n)) (dec_env e)
   | "claims", [SA n] => Some (enc_list enc_ikind (claims_of install_steps n))
   | "wrap", [SA "td-method"; nw; c; f; sk; nt; r] =>
